@@ -59,6 +59,10 @@ class Session:
         self.seen_packets_server = []
         self.seen_packets_client = []
 
+        # TLS 1.3: beginning of a handshake message whose rest is in a later record
+        self.handshake_rest_server = b""
+        self.handshake_rest_client = b""
+
         self.can_decrypt = False
         self.client_hello_seen = False
 
@@ -331,6 +335,8 @@ class Session:
         self.client_random = record.binary[6:38]
         logging.info(f"Client Random: {self.client_random.hex()}")
         self.client_hello_seen = True
+        self.handshake_rest_server = b""
+        self.handshake_rest_client = b""
 
     def handle_tls_server_hello(self, record: TlsRecord):
         if self.client_hello_seen:
@@ -389,15 +395,29 @@ class Session:
         self.client_hello_seen = False
 
     def handle_decrypted_tls_13_handshake_record(self, plaintext, isserver):
+        # a handshake message may be split over several records: continue with what the previous record left incomplete
+        if isserver:
+            plaintext = self.handshake_rest_server + plaintext
+        else:
+            plaintext = self.handshake_rest_client + plaintext
+
         index = 0
-        while index < len(plaintext):
+        while index + 4 <= len(plaintext):
             handshake_type = plaintext[index]
             length = int.from_bytes(plaintext[index + 1:index + 4], 'big')
+
+            if index + 4 + length > len(plaintext):
+                break
 
             if handshake_type == 20:
                 self.decryptor.update_keys(isserver)
 
             index += length + 4
+
+        if isserver:
+            self.handshake_rest_server = plaintext[index:]
+        else:
+            self.handshake_rest_client = plaintext[index:]
 
     def handle_tls_13_application_record(self, record: TlsRecord, isserver):
         try:
